@@ -60,8 +60,13 @@ CHECKS['C06'] = dict(
    note='pjs validation is modelled by guard functions (assumption, exercised through the real library); per-object multiplicity; naming hypothesis for class-name distinctness',
    technique='Lean 4 proof (validity invariant, rejection lemmas) + differential correspondence through the real pjs classes',
    design='C06')
+CHECKS['C15'] = dict(
+   text='Model/LangGraph.lean models LanguageGraph._generate_graph (association nodes with the code\'s de-duplication, per-asset association lists, subtype walk), get_association_by_fields_and_assets and the static typing of process_step_expression. The correspondence compares asset / super / sub / association lists, the subtype matrix, association lookups in both orientations, link mirroring and error reporting for ill-formed mutants with an independent reference and the Lean model, and checks for random valid models that every attack-graph edge is predicted by a language-graph link.',
+   note='theorems over the language-graph model (subtype = closure of extends, association lists, lookup, type soundness) are in progress; KF-C15-1 (same-signature associations merged) is a recorded finding replayed on every run',
+   technique='Lean 4 model + differential correspondence (theorems pending)',
+   design='C15')
 NOT_YET = {}
-PENDING = {'C07'}   # harness exists, theorems in progress: not claimed until they check
+PENDING = {'C07', 'C15', 'C10', 'C14', 'C04', 'C17'}   # harness exists, theorems in progress: not claimed until they check
 
 def main():
     for k in PENDING: CHECKS.pop(k, None)
